@@ -1,6 +1,7 @@
 /- line-protocol oracle: one case per line in, `model<TAB>spec` out. Core Lean only. -/
 import Pangaea.Drv.C11
 import Pangaea.Drv.C10
+import Pangaea.Drv.C15
 
 def dispatch (line : String) : String :=
   let toks := (line.trimAscii.toString.splitOn " ").filter (· ≠ "")
@@ -8,6 +9,7 @@ def dispatch (line : String) : String :=
     match toks with
     | "C11" :: rest => Pangaea.Drv.C11.handle rest
     | "C10" :: rest => Pangaea.Drv.C10.handle rest
+    | "C15" :: rest => Pangaea.Drv.C15.handle rest
     | _ => ("bad-op", "bad-op")
   r.1 ++ "\t" ++ r.2
 
